@@ -69,4 +69,28 @@ theorem gen_pow5tab :
   · decide
   · decide
 
+/-- **No shared mutable state.** No function of `data_convert.go` assigns to, increments,
+    takes the address of, or calls a (non read-only) method on a package-level variable of
+    package `utility` — directly or through a local assigned from one (alias). Hence each
+    conversion is a function of its arguments alone: answers cannot depend on earlier calls
+    (the history / interleaving / concurrency phases of the harness test the same thing
+    dynamically). -/
+theorem gen_no_package_state_writes : C18.pkgStateWrites = [] := by decide
+
+/-- The package-level variables of `data_convert.go` are exactly the read-only constants
+    `ten` and `tenToAny`; a new one (a cache, a hoisted scale factor) is flagged. -/
+theorem gen_package_vars : C18.pkgVars = ["ten", "tenToAny"] := by decide
+
+/-- Fork-configuration reads on the conversion paths: none inside `data_convert.go`,
+    `GetFT`/`SetFT`/`ConvertTx`/`transferBalance`/`ChangeAssets`; `AddFT`/`SubFT` read
+    Proposal002 (journaled `SetData` vs plain `setData` — same stored value),
+    `decodeContractData` reads 017 (default gas limit) and 005 (ABI data) — neither touches the
+    transfer value; `GetERC20Binding` reads `IsSub` (slot position 4 vs 3, decimals 18 in both).
+    The model is therefore flag-free; the harness runs `ft`/`xfer`/`evmval` on both sides of
+    each of these flags (`cfg` op). -/
+theorem gen_fork_flag_reads :
+    C18.forkFlagReads =
+      ["AddFT:common.IsProposal002", "SubFT:common.IsProposal002", "GetERC20Binding:common.IsSub",
+       "decodeContractData:common.IsProposal017", "decodeContractData:common.IsProposal005"] := by decide
+
 end Rangers.Props.C18Gen
